@@ -47,12 +47,22 @@ def jobs(tier, seed):
     for op in ('slope', 'aspect', 'curvature', 'hillshade', 'mean1', 'mean2'):
         for (cy, cx) in _grids(4, 4, tier, seed + len(op), n4 if op in ('slope', 'mean1') else n4 // 2):
             out.append({'name': '%s-4x4-%s-%s' % (op, 'x'.join(map(str, cy)), 'x'.join(map(str, cx))), 'op': op, 'shape': [4, 4], 'chunks': [list(cy), list(cx)]})
+    # integer rasters: the NaN halo / NaN border must not be cast to the integer dtype before the kernel sees it
+    for op in ('slope', 'aspect', 'curvature', 'hillshade', 'mean1'):
+        for dt in (('int32', 'uint8') if tier == 'quick' else ('int32', 'uint8', 'int64', 'float32')):
+            for (cy, cx) in _grids(3, 4, tier, seed + 11, 3 if tier == 'quick' else 8):
+                out.append({'name': '%s-3x4-%s-%s-%s' % (op, dt, 'x'.join(map(str, cy)), 'x'.join(map(str, cx))), 'op': op, 'shape': [3, 4], 'chunks': [list(cy), list(cx)], 'dtype': dt})
     for kn, ks in KERNELS.items():
         shp = [4, 4] if tier == 'quick' or kn not in ('3x5', '5x3') else ([4, 5] if kn == '3x5' else [5, 4])
         for op in ('apply', 'convolution', 'focal_stats'):
             ng = (n4 if kn != '3x3' else n4 // 2) if op != 'focal_stats' else 4
             for (cy, cx) in _grids(shp[0], shp[1], tier, seed + 7 * len(kn) + len(op), ng):
                 out.append({'name': '%s-%s-%s-%s' % (op, kn, 'x'.join(map(str, cy)), 'x'.join(map(str, cx))), 'op': op, 'shape': shp, 'chunks': [list(cy), list(cx)], 'kernel': kn})
+    for op in ('apply', 'convolution', 'focal_stats'):
+        for dt in ('int32', 'uint8'):
+            for (cy, cx) in _grids(3, 4, tier, seed + 13, 2 if tier == 'quick' else 8):
+                out.append({'name': '%s-3x3-%s-%s-%s' % (op, dt, 'x'.join(map(str, cy)), 'x'.join(map(str, cx))), 'op': op, 'shape': [3, 4], 'chunks': [list(cy), list(cx)], 'kernel': '3x3',
+                            'dtype': dt})
     for kn in ('3x3', '1x3'):
         for (cy, cx) in _grids(3, 4, tier, seed + 3, 6):
             out.append({'name': 'hotspots-%s-%s-%s' % (kn, 'x'.join(map(str, cy)), 'x'.join(map(str, cx))), 'op': 'hotspots', 'shape': [3, 4], 'chunks': [list(cy), list(cx)], 'kernel': kn})
@@ -71,7 +81,7 @@ def body(ctx, job):
     op = job['op']
     h, w = job['shape']
     chunks = job['chunks']
-    sc.set_axioms(congruence='syntactic', sqrt_zero=(op != 'hotspots'))
+    sc.set_axioms(congruence='full' if op == 'true_color' else 'syntactic', sqrt_zero=(op != 'hotspots'))
     ys = coords_affine(h, 10.0 + h, -1.0)
     xs = coords_affine(w, 3.0, 2.0)
     attrs = {'res': (2.0, 1.0)}
@@ -94,12 +104,13 @@ def body(ctx, job):
             ctx.check(label + '-dask-equals-numpy', same(b[c], a[c]) if exact else ctx.close(b[c], a[c], TOL32),
                       info=lambda m, c=c: {'op': op, 'cell': list(c), 'chunks': chunks, 'dask': ctx.ev(m, b[c]), 'numpy': ctx.ev(m, a[c])})
 
+    dt = job.get('dtype', 'float64')
     if op in ('slope', 'aspect', 'curvature', 'hillshade'):
-        d = ctx.array('d', (h, w), 'float64', nan=True)
+        d = ctx.array('d', (h, w), dt, nan=True)
         a_np, a_da = pair(d)
         compare(ctx.call('%s:%s' % (op, op), a_np), ctx.call('%s:%s' % (op, op), a_da), op)
     elif op in ('mean1', 'mean2'):
-        d = ctx.array('d', (h, w), 'float64', nan=False)
+        d = ctx.array('d', (h, w), dt, nan=False)
         a_np, a_da = pair(d)
         p = int(op[-1])
         compare(ctx.call('focal:mean', a_np, p), ctx.call('focal:mean', a_da, p), op, exact=False)
@@ -111,7 +122,7 @@ def body(ctx, job):
             for k_, (y, x) in enumerate(((0, 0), (1, 2), (h - 1, w - 1))):
                 d[y, x] = ctx.real('d%d' % k_)
         else:
-            d = ctx.array('d', (h, w), 'float64', nan=(op == 'apply'))
+            d = ctx.array('d', (h, w), dt, nan=(op == 'apply'))
         a_np, a_da = pair(d)
         if op == 'convolution':
             k = ctx.array('k', (kr, kc), 'float64', nan=False)
